@@ -50,7 +50,28 @@ func (vc *VC) pureEvalLit(st *State, lit *ast.FuncLit, args []Term) Term {
 	return t
 }
 
+// VerifyFunc verifies a function against its contract. If the proof annotations (loop invariants, anchors) no
+// longer apply to the code (e.g. they name a local that was renamed or removed), the function is re-verified with
+// those annotations dropped: the function-level contract still stands, but a failed obligation is then only
+// reported as a violation when a counterexample replays on the real code (otherwise: undecided).
 func (p *Prog) VerifyFunc(fi *FuncInfo, spec *FuncSpec) (res *FuncResult) {
+	res = p.verifyFunc(fi, spec, false)
+	if res.Err != nil && !res.Trusted && (len(spec.Loops) > 0 || len(spec.Asserts) > 0) {
+		first := res.Err
+		deg := *spec
+		deg.Loops = map[int]*LoopSpec{}
+		deg.Asserts = nil
+		r2 := p.verifyFunc(fi, &deg, true)
+		if r2.Err == nil {
+			r2.Spec = spec
+			r2.Notes = append(r2.Notes, fmt.Sprintf("proof annotations of %s do not apply to the current code (%v): verified with loop invariants/anchors dropped; failures count only with a replayed counterexample", fi.Key, first))
+			return r2
+		}
+	}
+	return res
+}
+
+func (p *Prog) verifyFunc(fi *FuncInfo, spec *FuncSpec, degraded bool, unroll ...int) (res *FuncResult) {
 	res = &FuncResult{Key: fi.FullKey(), Spec: spec}
 	if spec.Trusted {
 		res.Trusted = true
@@ -61,6 +82,11 @@ func (p *Prog) VerifyFunc(fi *FuncInfo, spec *FuncSpec) (res *FuncResult) {
 		declSeen: map[string]bool{}, heap0: map[string]Term{}, heapSort: map[string]string{}, heapElemT: map[string]types.Type{},
 		counters: map[string]int{}, params: map[string]types.Object{}, paramTerm: map[string]Term{},
 		closures: map[string]*funcVal{}, litResults: map[*ast.FuncLit][]*types.Var{}, usedLoops: map[int]bool{}, usedSpecs: map[string]bool{}, usedAnchors: map[string]bool{}, lazyHeaps: map[string]Term{}, havocKnown: map[string]map[string]bool{}}
+	if len(unroll) > 0 {
+		vc.unroll = unroll[0]
+		p.u.boundedWF = unroll[0] + 1
+		defer func() { p.u.boundedWF = 0 }()
+	}
 	defer func() {
 		if r := recover(); r != nil {
 			if ue, ok := r.(unsupportedErr); ok {
@@ -249,7 +275,8 @@ func (p *Prog) VerifyFunc(fi *FuncInfo, spec *FuncSpec) (res *FuncResult) {
 		}
 	}
 	for _, o := range vc.obls {
-		o.Weak = len(vc.abstracted) > 0
+		o.Facts = append(o.Facts, vc.boundAssume...)
+		o.Weak = len(vc.abstracted) > 0 || degraded
 		o.Decls = vc.decls
 		o.Facts = append(append([]string(nil), vc.base...), o.Facts...)
 		o.Inputs = vc.inputs
